@@ -8,6 +8,7 @@ import (
 	"fmt"
 	"os"
 
+	"olverif/harness/apph"
 	"olverif/harness/kv"
 )
 
@@ -56,6 +57,32 @@ func main() {
 		}
 		fmt.Printf("kv: cases=%d nontrivial=%d ops=%d disagreements=%d monitor=%v twin=%d/%d hashreplays=%d\n",
 			res.Evaluations, res.DistinctNontrivial, res.OpsExecuted, res.DisagreementCount, res.MonitorHitCount, len(res.TwinMismatches), res.TwinRuns, res.HashReplays)
+	case "smoke":
+		smoke()
+	case "twin", "dropfailed", "inject", "crash":
+		fs := flag.NewFlagSet(os.Args[1], flag.ExitOnError)
+		_ = fs.String("driver", "", "path to olpdriver")
+		seed := fs.Uint64("seed", 1, "seed")
+		hist := fs.Int("histories", 10, "histories")
+		blocks := fs.Int("blocks", 10, "blocks per history")
+		maxtx := fs.Int("maxtxs", 6, "max txs per block")
+		rep := fs.Int("repeats", 1, "repeats")
+		out := fs.String("out", "", "result json")
+		fs.Parse(os.Args[2:])
+		stdout := apph.SilenceAppLogs()
+		res, err := apph.RunTwin(apph.TwinOptions{Seed: *seed, Mode: apph.Mode(os.Args[1]), Histories: *hist, Blocks: *blocks, MaxTxs: *maxtx, Repeats: *rep})
+		apph.Cleanup()
+		if err != nil {
+			fmt.Fprintln(stdout, "olh", os.Args[1], ":", err)
+			os.Exit(2)
+		}
+		if *out != "" {
+			if err := kv.WriteResult(*out, res); err != nil {
+				fmt.Fprintln(stdout, err)
+				os.Exit(2)
+			}
+		}
+		fmt.Fprintf(stdout, "%s: cases=%d nontrivial=%d monitor=%v counters=%v\n", os.Args[1], res.Evaluations, res.DistinctNontrivial, res.MonitorHitCount, res.Counters)
 	default:
 		fmt.Fprintln(os.Stderr, "unknown engine", os.Args[1])
 		os.Exit(2)
